@@ -242,6 +242,95 @@ def hdf5_pairing(ck):
                   replay_out=None if ok else native_first(ck))
 
 
+def hdf5_several_grids(ck):
+    """one HDF5 file holding several grids under different paths (what `path=` is for): writing or replacing one grid -- with or without
+    overwrite=True -- leaves the other grid readable.  h5py's open modes by contract: 'r' read only (file must exist), 'r+' / 'a' update,
+    'w' create / TRUNCATE, 'w-' / 'x' create, fail if the file exists."""
+    import h5py
+    from nuspacesim.utils import grid as GM
+
+    qn = "grid:hdf5_nssgrid_writer/reader"
+    for second_kw, tag in (({}, "second grid written without overwrite"), ({"overwrite": True}, "second grid written with overwrite=True"), ({"overwrite": True, "_same_path": True}, "first grid replaced, other grid kept")):
+        ga, gb, gc = grid_tokens(["x", "y"]), grid_tokens(["u"]), grid_tokens(["x", "y"])
+        files, made, modes = {}, {}, []
+
+        def h5file(interp, filename, mode="r", **k):
+            modes.append(mode)
+            if mode in ("w",):
+                files[filename] = H5File([], "/")
+            elif mode in ("w-", "x"):
+                if filename in files:
+                    raise FileExistsError("Unable to create file (file exists)")
+                files[filename] = H5File([], "/")
+            elif mode in ("r", "r+"):
+                if filename not in files:
+                    raise FileNotFoundError(filename)
+            elif mode != "a":
+                raise ValueError("Invalid mode; must be one of r, r+, w, w-, x, a")
+            return files.setdefault(filename, H5File([], "/"))
+
+        ov = {h5py.File: h5file, GM.NssGrid: lambda interp, d, axes=None, axis_names=None, **k: made.update(data=d, axes=list(axes), names=list(axis_names)) or "GRID"}
+        ov.update(tok_array_overrides())
+        it = harness.make_interp(ov)
+        kw2 = {k: v for k, v in second_kw.items() if not k.startswith("_")}
+        steps = [(GM.hdf5_nssgrid_writer, [ga, "F.h5"], {"path": "/first"}), (GM.hdf5_nssgrid_writer, [gb, "F.h5"], {"path": "/second"})]
+        if second_kw.get("_same_path"):
+            steps.append((GM.hdf5_nssgrid_writer, [gc, "F.h5"], dict(kw2, path="/first")))
+            read_path, want = "/second", gb
+        else:
+            steps[1] = (GM.hdf5_nssgrid_writer, [gb, "F.h5"], dict(kw2, path="/second"))
+            read_path, want = "/first", ga
+        allp = []
+        for st in steps:
+            ps = it.explore(lambda st=st: st)
+            allp += ps
+            if len(ps) != 1 or ps[0].kind != "return":
+                break
+        ps2 = it.explore(lambda: (GM.hdf5_nssgrid_reader, ["F.h5"], {"path": read_path})) if all(p.kind == "return" for p in allp) and len(allp) == len(steps) else []
+        ck.add_functions(it)
+        otag = "[%s]" % tag
+        if any(p.kind == "unsupported" for p in allp + ps2) or (not ps2 and all(p.kind == "return" for p in allp)):
+            o = ck.ob("%s/exec%s" % (qn, otag), "exec")
+            o.note = str([(p.kind, str(p.exc)[:80]) for p in allp + ps2])[:300]
+            ck._undecided(o, lambda: native_several_grids(ck))
+            continue
+        ok = bool(ps2) and ps2[0].kind == "return" and _tok(made.get("data")) is want.data and made.get("names") == want.axis_names
+        ck.direct("%s/several_grids%s" % (qn, otag), ok, "post", "symbolic execution of writer, writer, reader on h5py stubs with the library's open modes", note="open modes %s; %s" % (modes, str([(p.kind, str(p.exc)[:60]) for p in allp + ps2])[:160]),
+                  clause="a file holds several grids under different paths: writing another grid (or replacing one) leaves the others readable", witness=None if ok else {"sequence": tag},
+                  replay_out=None if ok else native_several_grids(ck))
+
+
+def native_several_grids(ck):
+    """the same sequences on a real HDF5 file"""
+    from nuspacesim.utils.grid import NssGrid, hdf5_nssgrid_reader, hdf5_nssgrid_writer
+
+    tmp = tempfile.mkdtemp(prefix="c18h_", dir=os.environ.get("XDG_RUNTIME_DIR") or None)
+    path = os.path.join(tmp, "g.h5")
+    a = NssGrid(np.arange(6.0).reshape(2, 3), [np.array([1.0, 2.0]), np.array([0.0, 0.5, 1.0])], ["x", "y"])
+    b = NssGrid(np.arange(4.0) + 10, [np.array([1.0, 2.0, 3.0, 4.0])], ["u"])
+    try:
+        for kw, what in (({}, "second grid written without overwrite"), ({"overwrite": True}, "second grid written with overwrite=True")):
+            if os.path.exists(path):
+                os.unlink(path)
+            hdf5_nssgrid_writer(a, path, path="/first")
+            hdf5_nssgrid_writer(b, path, path="/second", **kw)
+            try:
+                back = hdf5_nssgrid_reader(path, path="/first")
+                ok = np.array_equal(np.asarray(back.data), np.asarray(a.data)) and list(back.axis_names) == ["x", "y"]
+                obs = {"first grid read back": "equal" if ok else "differs"}
+            except Exception as ex:
+                ok, obs = False, "reading the first grid raised %r" % ex
+            if not ok:
+                return {"violated": True, "input": {"sequence": "write grid A at /first; write grid B at /second (%s); read /first" % what}, "observed": obs}
+        return {"violated": False, "evaluations": 2}
+    except Exception as ex:
+        return {"violated": None, "note": "native HDF5 sequence failed: %r" % ex}
+    finally:
+        for f in os.listdir(tmp):
+            os.unlink(os.path.join(tmp, f))
+        os.rmdir(tmp)
+
+
 class HDUL(Stub):
     """astropy HDUList: index by position, or by EXTNAME (case-insensitive, as astropy does)"""
 
@@ -565,6 +654,7 @@ def run(ck):
     C04.vec_obligations(ck)
     slice_obligations(ck)
     hdf5_pairing(ck)
+    hdf5_several_grids(ck)
     fits_pairing(ck)
     data_obligations(ck)
     ck.bounded_run("grid files and slices with the real libraries", lambda: bounded_native(ck),
